@@ -23,6 +23,21 @@ def builder_half(c, tier):
         bad_e = B.expr(n, extra=n["bad"]); ok_e = B.expr(n)
         src = os.path.join(pd, "n%04d.rs" % i); open(src, "w").write(B.single_program(bad_e))
         jobs.append((src, src[:-3])); meta.append(("neg", n, bad_e))
+        # the same ill-formed sequence with closures that return a FRESH builder instead of the one handed in, and a
+        # finaliser called on a builder whose typestate is left to inference
+        alts = []
+        fe = B.expr_fresh(n, extra=n["bad"])
+        if fe != bad_e: alts.append((fe, B.expr_fresh(n)))
+        if n["b"] == "VB" and n["bad"]["m"] == "finalize":
+            inferred = bad_e.replace("VariantBuilder::<MetaForm>::new(", "VariantBuilder::new(").replace("VariantBuilder::<PortableForm>::new(", "VariantBuilder::new(")
+            F = "MetaForm" if n["f"] == "M" else "PortableForm"
+            alts.append(("{ let r: scale_info::Variant<%s> = %s; r }" % (F, inferred), None))
+        for k, (ae, aok) in enumerate(alts):
+            s3 = os.path.join(pd, "n%04d_alt%d.rs" % (i, k)); open(s3, "w").write(B.single_program(ae))
+            jobs.append((s3, s3[:-3])); meta.append(("neg", n, ae))
+            if aok and aok not in neigh:
+                s4 = os.path.join(pd, "k%04d.rs" % len(neigh)); open(s4, "w").write(B.single_program(aok)); neigh[aok] = s4
+                jobs.append((s4, s4[:-3])); meta.append(("pos", n, aok))
         if ok_e not in neigh:
             s2 = os.path.join(pd, "k%04d.rs" % len(neigh)); open(s2, "w").write(B.single_program(ok_e)); neigh[ok_e] = s2
             jobs.append((s2, s2[:-3])); meta.append(("pos", n, ok_e))
